@@ -1225,37 +1225,42 @@ func (w *world) evaluate(bc *blockchain.Blockchain, store db.KeyValueStore) []vi
 		}
 		_ = closer()
 	}
-	// events vs a naive scan of the stored receipts
-	found, qerr := w.query(bc, store)
-	if qerr != nil {
-		add("events:error", qerr.Error(), qerr)
-	} else {
-		var want []bk
-		for n := oldest; n <= th; n++ {
-			h, _ := w.twin.BC.BlockHeaderHashByNumber(n)
-			if id := w.byHash[*h]; !bareID(w.off, id.N, id.V) {
-				want = append(want, id)
-			}
-		}
-		have := map[bk]bool{}
-		for _, id := range found {
-			have[id] = true
-		}
-		for _, id := range want {
-			if !have[id] {
-				add("events:false-negative", fmt.Sprintf("event of block id %v not returned; got %v want %v", id, found, want), nil)
-			}
-			delete(have, id)
-		}
-		if len(have) > 0 {
-			add("events:extra", fmt.Sprintf("got %v want %v", found, want), nil)
-		}
-	}
+	w.evalEvents(bc, store, oldest, th, add)
 	if bc == w.node.BC {
 		w.checkRetained(add)
 		w.retain(bc)
 	}
 	return out
+}
+
+// evalEvents: the event index against a naive scan of the stored receipts (one filtered query per
+// block id ever built; oldest..th = the retained range of the expected chain).
+func (w *world) evalEvents(bc *blockchain.Blockchain, store db.KeyValueStore, oldest, th uint64, add adder) {
+	found, qerr := w.query(bc, store)
+	if qerr != nil {
+		add("events:error", qerr.Error(), qerr)
+		return
+	}
+	var want []bk
+	for n := oldest; n <= th; n++ {
+		h, _ := w.twin.BC.BlockHeaderHashByNumber(n)
+		if id := w.byHash[*h]; !bareID(w.off, id.N, id.V) {
+			want = append(want, id)
+		}
+	}
+	have := map[bk]bool{}
+	for _, id := range found {
+		have[id] = true
+	}
+	for _, id := range want {
+		if !have[id] {
+			add("events:false-negative", fmt.Sprintf("event of block id %v not returned; got %v want %v", id, found, want), nil)
+		}
+		delete(have, id)
+	}
+	if len(have) > 0 {
+		add("events:extra", fmt.Sprintf("got %v want %v", found, want), nil)
+	}
 }
 
 func (w *world) cmpState(sym string, a, b core.StateReader, add adder) {
